@@ -31,7 +31,7 @@ ASSUMPTIONS = [
     "the second sentence of C08 (formatter/serializer round trip equality) is exercised through the real JSON wire only for these messages; it is not claimed in general",
 ]
 TRUSTED = ["pydantic 2.x (executed)", "json (executed)", "vt.sym explorer"]
-BOUNDS = {"parameters": "<= 3 quick, <= 4 thorough", "value classes per kind": "2-3", "serializer": "bundled JSON"}
+BOUNDS = {"parameters": "<= 3 quick, <= 4 thorough (the fourth from 5 of the 10 kinds)", "value classes per kind": "2-3", "serializer": "bundled JSON"}
 REQUIRED_COVERS = ["converted", "not_convertible_unchanged", "unannotated_unchanged", "validate_off", "keyword", "positional", "kwonly", "dep", "model", "none_value", "second_message", "varkw", "default_noconv", "default_absent"]
 
 
@@ -108,7 +108,10 @@ def harness(c: sym.Ctx, case: Dict[str, Any]) -> None:
     from taskiq.receiver import Receiver
 
     n = case["n"]
-    kinds = [KINDS[k] for k in case["head"]] + [KINDS[c.choose(len(KINDS), f"kind{i}")] for i in range(len(case["head"]), n)]
+    # a fourth parameter (thorough tier) is drawn from the kinds that differ in how they are parsed / defaulted
+    LAST = ("plain", "int", "model", "dep", "intd")
+    kinds = [KINDS[k] for k in case["head"]] + [
+        (LAST[c.choose(len(LAST), f"kind{i}")] if i == 3 else KINDS[c.choose(len(KINDS), f"kind{i}")]) for i in range(len(case["head"]), n)]
     # python requires parameters with defaults (deps) after the ones without among positional ones
     kwonly_from = c.choose(list(range(1, n + 1)), "kwonly_from")  # == n: no keyword-only section
     pos_region = kinds[:kwonly_from]
